@@ -17,7 +17,11 @@ CONSTANTS DT,        \* dtypes of the data (and of operand 0 / operand 1)
           Pairs,     \* <<from, to>> unit pairs for conversions
           UPairs,    \* <<u0, u1>> unit pairs for ufuncs
           Ops, OutOps, \* ufuncs without out / with out and in place
-          Shapes, UShapes, Fams
+          Shapes, UShapes, Fams,
+          CDA, CDE,  \* comb family: dtypes of the array / of the listed, assigned or compared elements
+          CVB,       \* value classes of element 2
+          CPairs,    \* <<unit of element 1, unit of element 2>>
+          COps       \* ufuncs with a list operand
 
 \* ---- named constant values for the cfgs (cfg files cannot write tuples) ----
 DT13 == {"i1", "i2", "i4", "i8", "u1", "u2", "u4", "u8", "f2", "f4", "f8", "c8", "c16"}
@@ -38,7 +42,17 @@ OpsOutAll == {"add", "subtract", "maximum"}
 ShapesAll == {"q", "a"}
 UShapesAll == {"qq", "aa"}
 UShapesQuick == {"aa"}
-FamsAll == {"conv", "ufunc", "out", "real"}
+FamsAll == {"conv", "ufunc", "out", "real", "comb"}
+FamsConv == {"conv", "real"}
+FamsUfunc == {"ufunc"}
+FamsOut == {"out"}
+FamsComb == {"comb"}
+CDAQuick == {"i1", "i2", "i4", "i8", "u2", "u8", "f2", "f8", "c8"}
+CDEQuick == {"i1", "i2", "i4", "i8", "u1", "u4", "u8", "f4", "c8"}
+CVBQuick == {"s3", "n5", "max", "h", "z"}
+CPairsQuick == {<<1, 3>>, <<3, 2>>, <<2, 1>>}
+COpsQuick == {"add", "maximum", "less", "equal"}
+COpsFull == {"add", "subtract", "maximum", "less", "equal", "greater_equal"}
 RealPairs == {<<4, 5>>, <<5, 4>>, <<5, 1>>}
 VARIABLE c
 vars == <<c>>
@@ -72,6 +86,47 @@ UfuncCase(op, d0, d1, vc0, vc1, u0, u1, shape, out) ==
    k |-> Factor(u1, u0), shape |-> shape, out |-> out, els |-> UElems(vc0, vc1, d0, d1, shape), m |-> r,
    mfail |-> {[route |-> op, cl |-> x] : x \in UfuncFails(op, d0, d1, out, r)}]
 
+
+\* ---- comb family
+\* does the integer n fit the dtype d (only asked for small n)?
+FitsInt(d, n) == IF ~IsInt(d) THEN IsRepR(R(n), Comp(d))   \* a float array must hold the integer exactly
+                 ELSE (LET lim == IF MaxBits(d) >= 31 THEN 2147483647 ELSE Pow2Nat(MaxBits(d)) - 1 IN
+                               n <= lim /\ n >= (IF IsSigned(d) THEN -lim - 1 ELSE 0))
+\* a-side classes: base, or "tr" (floor of the partner's converted value) when that is small and fits
+CombVA(form, da, de, vb, uf, us, ua) ==
+  {<<BaseClass(da), BaseClass(da)>>} \cup
+  (IF form \in ListOpForms \cup CloseForms /\ IsSmall(vb) /\ ~IsComplex(da) /\ ~IsComplex(de)
+      /\ FitsInt(da, RFloor(CombBIn(form, de, vb, uf, us, 2, ua)[1])) /\ FitsInt(da, RFloor(CombBIn(form, de, vb, uf, us, 1, ua)[1]))
+   THEN {<<"tr", "tr">>} ELSE {})
+CombValid(form, op, da, de, vb, uf, us, ua) ==
+  /\ Applies(vb, de)
+  /\ ((IsComplex(da) \/ IsComplex(de)) => (form \notin CloseForms \cup RefusingForms /\ (form \in ListOpForms => op \in {"add", "subtract", "equal", "not_equal"})))
+  \* __setitem__ into an integer array: only values the array can hold (anything else is undefined in C)
+  /\ ((form \in SetForms /\ IsInt(da)) =>
+        /\ IsInt(de) /\ IsSmall(vb)
+        /\ \A j \in 1..2 : LET x == CombBIn(form, de, vb, uf, us, j, ua)[1] IN FitsInt(da, RFloor(x)) /\ FitsInt(da, RFloor(x) + 1)
+        \* ... and whose float image (in the elements' float type, in either unit) is exact: an inf or a rounded
+        \* number assigned to an integer is outside what C17 speaks about
+        /\ \A j \in 1..2 : \A to \in {uf, ua} : IsRepR(CombBIn(form, de, vb, uf, us, j, to)[1], Comp(de)))
+  \* NumPy assigns a 0-d long double *subclass* instance through Python's complex()/float(): not a unit matter
+  /\ ((form \in SetForms /\ Comp(de) = 16) => (da = de /\ IsFloat(de)))
+  /\ ((form \in SetForms /\ ~IsInt(da)) => (IsComplex(de) => IsComplex(da)))
+CombCase(form, op, da, de, vb, uf, us, ua, va) ==
+  LET r == CombOut(form, op, da, de, vb, uf, us, ua)
+      tu == TargetUnit(form, uf, us, ua) IN
+  [fam |-> "comb", form |-> form, op |-> op, d0 |-> da, d1 |-> de, vc1 |-> vb, vc0 |-> va[1], va |-> va, uf |-> uf, us |-> us, ua |-> ua,
+   k |-> UnitExp(us) - UnitExp(tu), shape |-> form, out |-> "none", m |-> r,
+   mfail |-> {[route |-> form, cl |-> x] : x \in CombFails(form, op, da, de, uf, ua, r)}]
+CombNext ==
+  \E form \in CombForms, da \in CDA, de \in CDE, vb \in CVB, p \in CPairs :
+    \E op \in (IF form \in ListOpForms THEN COps ELSE {""}),
+       ua \in (IF form \in CtorForms THEN {p[1]} ELSE IF form \in ListOpForms THEN {p[1], p[2]} ELSE {p[1]}) :
+      \* (for the forms with one partner unit the array is in p[1] and the partner in p[2])
+      /\ (form \in CtorForms => da = "f8")   \* the constructor has no array operand
+      /\ CombValid(form, op, da, de, vb, p[1], p[2], ua)
+      /\ \E va \in CombVA(form, da, de, vb, p[1], p[2], ua) :
+           c' = CombCase(form, op, da, de, vb, p[1], p[2], ua, va)
+
 Next ==
   /\ c = <<>>
   /\ \/ /\ "conv" \in Fams
@@ -84,6 +139,7 @@ Next ==
              /\ Applies(vc, d)
              /\ (route \in BaseRoutes => p[2] = 1)
              /\ c' = ConvCase(route, d, vc, p[1], p[2], shape, TRUE)
+     \/ /\ "comb" \in Fams /\ CombNext
      \/ /\ "ufunc" \in Fams
         /\ \E op \in Ops, d0 \in DT, d1 \in DT, vc0 \in UVC0, vc1 \in UVC1, p \in UPairs, shape \in UShapes :
              /\ Applies(vc0, d0) /\ Applies(vc1, d1) /\ UValid(op, d0, d1, "none")
@@ -100,7 +156,7 @@ Export == c # <<>> => PrintT(ToJson(c))
 \* the transcribed design never yields integer data and refuses only where C17 allows a refusal
 NoIntegerResult == c # <<>> =>
    IF c.fam = "conv" THEN (~c.mc.raise => c.mc.kind \in {"f", "c"}) /\ (~c.mi.raise => c.mi.kind \in {"f", "c"})
-   ELSE (~c.m.raise => c.m.kind \in {"f", "c", "b"})
+   ELSE (~c.m.raise => (c.m.kind \in {"f", "c", "b"} \/ (c.fam = "comb" /\ c.form \in SetForms)))
 RefusalsAllowed == c # <<>> =>
    IF c.fam = "conv" THEN \A x \in c.mfail : x.cl = "C17_refuse" => (x.route = "to_value" /\ IsComplex(c.d) /\ c.shape = "q")
    ELSE \A x \in c.mfail : x.cl # "C17_refuse"
